@@ -81,7 +81,7 @@ class CachedMeasurementFactory:
         op_key = frozenset(paulis.items())
         if op_key in self._cache:
             return self._cache[op_key]
-        groups = self._measurement_factory(paulis)
+        groups = tuple(self._measurement_factory(paulis))
         self._cache[op_key] = groups
         return groups
 
